@@ -14,7 +14,7 @@ CHECKS = {
         category="proof",
         text=("Lean theorems (Edn.Properties.C12) prove, for inputs of every length, that the block (SSE) form of each "
               "scanner of the model equals its byte-at-a-time specification, that the lane predicates and tables "
-              "extracted from the current source agree, and that leading blanks do not change what the reader returns. "
+              "extracted from the current source agree, that the vectorised text-block line scanner (indentation and content pre-scans) equals the scalar line reader, and that leading blanks do not change what the reader returns. "
               "The model is tied to the code on every run: 16 lanes x 256 byte values, lengths 0..50 (96 thorough) x special-byte "
               "positions for the five scanner entry points in the sanitised and the -O2 build, against the model and an "
               "independent scalar reference; whole reads with 1..47 leading blanks and with varied bytes after `length`."),
@@ -30,12 +30,13 @@ CHECKS = {
               "experimental flag) lies in the signed 64-bit range and n is that value; ratio_gcd equals the mathematical gcd for all "
               "int64 operands including INT64_MIN; at reader level edn_read_number consumes exactly a big-decimal / hex / octal / NrD radix / ratio token "
               "followed by a terminator and returns the payload its class denotes (ratios in lowest terms, integer when the denominator divides, big forms "
-              "only when an operand does not fit). Tied to the code by direct calls of the static helpers (2^63 neighbourhood for every "
+              "only when an operand does not fit); the number reader accepts exactly the declarative token grammar of its configuration (CoreNum, CljNum, ExpNum: *_number_reader_is_the_grammar) and "
+              "removing `_` separators never changes the value (separators_do_not_change_the_value). Tied to the code by direct calls of the static helpers (2^63 neighbourhood for every "
               "radix, 1..40 digits, 20k/1M random 8-digit blocks, every non-digit byte in every lane, gcd operands) and by whole literals "
               "(decimal, N/M suffixes, radix/hex/octal, ratios, underscores) through reader and model, with Python big integers and "
               "Fraction as the oracle."),
         design_ref="DESIGN.md section 6, C04",
-        note=NOTE_COMMON + " Reader-level theorems cover decimal integers (C03), big decimals, and with the Clojure flag hex, octal, radix and ratio tokens (reads_hex ... reads_ratio); underscore spellings of the experimental flag at reader level are covered by the correspondence run only.",
+        note=NOTE_COMMON + " Reader-level theorems cover decimal integers (C03), big decimals, and with the Clojure flag hex, octal, radix and ratio tokens (reads_hex ... reads_ratio); underscore spellings of the experimental flag are covered by exp_number_reader_is_the_grammar (experimental only) and clj_number_reader_is_the_grammar (both flags).",
         technique="Lean 4 proof (lane-wise SWAR arithmetic, loop invariants, Stein gcd) + correspondence check + big-integer oracle",
     ),
     "C07": dict(
@@ -117,7 +118,9 @@ CHECKS = {
               "equals the declarative dispatch (Edn.Spec.dispatchV: handlers bottom-up in source order, one logged call each with the operand's range, "
               "never inside discards, modes keep / unwrap / reject) applied to the tree the same input reads to without a registry - same value up to "
               "cache cells, same call log, or the same error code and range with the calls made until then (handler failure, unknown tag in error mode, "
-              "results colliding in a set or as map keys); proved as a simulation between the two runs by induction on fuel. Tied to the code by all operation sequences up to length 4 (5 thorough) over 4 tags including a bucket-colliding "
+              "results colliding in a set or as map keys); proved as a simulation between the two runs by induction on fuel. For every configuration incl. the Clojure flag "
+              "(where the registry-free tree is proved insufficient: namespaced-map keys are qualified after their handler ran) one syntax tree of the input determines the result of reading under "
+              "every option set - value, call log, or error code, range and calls so far - with no hypothesis on the handlers (reading_is_determined_by_syntax_tree). Tied to the code by all operation sequences up to length 4 (5 thorough) over 4 tags including a bucket-colliding "
               "pair x 2 handlers on both tables, and by generated tagged documents under 3 default modes x {registry, none}, with discards, "
               "checked against an independent Python re-implementation of dispatch on the passthrough tree (call log in post-order)."),
         design_ref="DESIGN.md section 6, C14",
@@ -130,13 +133,16 @@ CHECKS = {
               "edn_arena_alloc returns is 8-aligned, at least the requested size, inside its block and disjoint from all others; earlier "
               "blocks are never moved or shrunk; refused requests (incl. sizes whose rounding would wrap) change nothing. Tied to the code by "
               "request sequences over the size classes 0,1,7,8,9, block edges, 2^20, SIZE_MAX-k (all pairs / triples, random long runs) "
-              "against the model and a geometric oracle. The reader half (everything released by the single free or before a failed read "
-              "returns; no double free; stable NUL-terminated string buffers; registry destroyed before values) is decided at run time by the "
-              "allocation ledger (--wrap=malloc,calloc,realloc,free), ASan and LeakSanitizer over accepted, rejected, extension and "
-              "large-collection documents - that part is monitoring, not proof."),
+              "against the model and a geometric oracle. The reader half is proved over the allocation-aware reader model Edn.Model.ReaderA (every edn_arena_alloc / malloc / calloc / realloc / free / "
+              "arena create and destroy the library makes while reading, in order, under an arbitrary fault oracle): for EVERY oracle each reader function returns with the raw heap blocks it was called with, the event "
+              "trace of a whole read is well-formed (a free follows a granted request of that block, once, never after a realloc took it away; each arena destroyed once) and ends with no live raw block; the "
+              "temporary arena is gone at return; the parser's arena is alive exactly when a value is returned and destroyed or never created otherwise; accessors make arena requests only. "
+              "That model is tied to the code by the H stream: for every document of the fault corpus and every request index k (alone / from k on) harness and model must print the same outcome AND the same event trace. "
+              "What the model cannot exhibit (that free really releases, that handed-out pointers stay mapped and unchanged, registry destroyed before values) is monitored by the "
+              "allocation ledger (--wrap), ASan and LeakSanitizer over accepted, rejected, extension and large-collection documents."),
         design_ref="DESIGN.md section 6, C15",
-        note=NOTE_COMMON + " malloc is assumed to return disjoint, 8-aligned blocks or NULL. Real frees and leaks are visible only to the run-time ledger and sanitizers (partial).",
-        technique="Lean 4 proof (allocator invariant by induction over requests) + correspondence check + allocation ledger / LeakSanitizer",
+        note=NOTE_COMMON + " malloc is assumed to return disjoint, 8-aligned blocks or NULL. The ledger theorems are about the model's event trace; that the C code produces that trace is what the H correspondence observes (every fault point of the corpus), not a theorem (partial).",
+        technique="Lean 4 proof (allocator invariant by induction over requests; ledger invariant by induction on reader fuel over the allocation-aware model, for every fault oracle) + trace correspondence + allocation ledger / LeakSanitizer",
     ),
     "C02": dict(
         category="proof",
@@ -160,10 +166,13 @@ CHECKS = {
               "strings with every escape of the build, characters (named, \\uXXXX, printable), keywords, symbols, lists, vectors, sets and maps with "
               "pairwise distinct elements/keys, tagged elements, any mix of the 11 whitespace bytes, commas, comments and discarded forms between "
               "forms - and for every derivation within the nesting limit edn_read accepts the bytes, consumes exactly them and returns a tree "
-              "with exactly that content (kinds, payloads, order, counts, tag bytes), at every depth and in discard mode too. Tied to the code by the correspondence run; a grammar sampler derived from docs/edn.ebnf and the "
+              "with exactly that content (kinds, payloads, order, counts, tag bytes), at every depth and in discard mode too. The accepted language exactly, in all four configurations "
+              "(reader_accepts_exactly_the_grammar and its instances): edn_read returns a tree with content a (metadata included) iff the input starts with a form of the declarative grammar "
+              "Edn.Spec.FormX cfg denoting a within the nesting limit - metadata chains with the merge stated on contents, namespaced maps with keys qualified before the duplicate check, Clojure number tokens, "
+              "text blocks, separators; soundness by induction on fuel, completeness by recursion over derivations. Tied to the code by the correspondence run; a grammar sampler derived from docs/edn.ebnf and the "
               "value generator feed accepted documents whose expected tree is known; the 11 listed grammar-vs-reader differences are known findings."),
         design_ref="DESIGN.md section 6, C03",
-        note=NOTE_COMMON + " Renders is my reading of the EDN specification; ratio and other extension spellings are outside it (number classes of the Clojure flag: C04 theorems; the rest: correspondence only).",
+        note=NOTE_COMMON + " Renders is my reading of the EDN specification; FormX (GrammarX.lean) is the liberal grammar of what the reader accepts in each configuration, extension syntax included.",
         technique="Lean 4 proof (mutual structural induction over rendering derivations; token lemmas per kind) + correspondence check + grammar sampler / expected-tree oracle",
     ),
     "C10": dict(
@@ -172,10 +181,13 @@ CHECKS = {
               "and an error's code is never OK (six-fold induction); string, character, identifier/symbolic and number tokens fail with their own class; "
               "one-step characterisations give the class and range of each structural defect: stray closer (UNMATCHED_DELIMITER), wrong closer, "
               "input ending inside a sequence or map (UNTERMINATED_COLLECTION from the opener to the end), odd map (INVALID_SYNTAX), discard or tag "
-              "without operand (INVALID_DISCARD / INVALID_SYNTAX / UNEXPECTED_EOF). Tied to the code by all strings of length <=4 (5 thorough) over a "
+              "without operand (INVALID_DISCARD / INVALID_SYNTAX / UNEXPECTED_EOF). Document level (core configuration): a well-formed open context followed by a defect is rejected with that defect's "
+              "class and range (first_defect_decides): end of input exactly for top-level trivia, the innermost unterminated collection, stray / mismatched closers, odd map, orphan tag / discard, bad tokens, "
+              "unterminated strings; no prefix in the grammar => never a value. Tied to the code by all strings of length <=4 (5 thorough) over a "
               "24-symbol structural alphabet in two option modes (value-xor-error checked on the real result structure) and by corruptions of "
               "generated documents whose class is predicted from the dump (truncation inside collection/string, wrong/stray/missing closer, odd map, "
-              "orphan discard/tag/metadata marker, bad token)."),
+              "orphan discard/tag/metadata marker, bad token); the value-xor-error invariant on every fault point (every request failed alone / from there on) of a short corpus per configuration; "
+              "90k extension number tokens (separator / hex / octal / radix / ratio pieces in every combination) whose expected verdict is the proven number grammar of the configuration."),
         design_ref="DESIGN.md section 6, C10",
         note=NOTE_COMMON + " Error message texts are compared by the C17 check, not modelled.",
         technique="Lean 4 proof (induction on reader fuel; one-step unfoldings) + correspondence check + predicted-error-class oracle",
@@ -231,7 +243,8 @@ CHECKS = {
               "indentation and blank lines kept, escaped triple quote unescaped, final line feed iff the closer is on its own line); for every well-formed "
               "block - any number of lines, any space/tab indentation incl. 0 on the first line, any number of escapes - the reader with the experimental "
               "flag returns a string value holding exactly those bytes (exact length, no pending escapes), spanning the literal and leaving the rest "
-              "untouched; such a value is Eqv to and hashes like the ordinary literal of the same content. Tied to the code by an independent Python "
+              "untouched; such a value is Eqv to and hashes like the ordinary literal of the same content; conversely the text-block reader returns a value only for a well-formed block, "
+              "consumed exactly, with a unique decomposition into lines / closer / rest, and everything else is INVALID_STRING (block_reader_is_the_grammar, ill_formed_block_is_rejected). Tied to the code by an independent Python "
               "implementation of the algorithm over source lines: all 0..2-line blocks (3 lines sampled in thorough) over 5 indentations x 9 bodies x 6 closers, "
               "random blocks to 12 lines / indentation 20 / lines crossing 16-byte blocks; exact length and bytes, equality and hash against the ordinary "
               "literal, collision in a set and as map keys, truncated blocks; model and library compared on every case."),
